@@ -90,12 +90,23 @@ pub fn cmd_stats(seed: u64, n: usize, opts: &[String]) {
     let mut distinct: HashSet<String> = HashSet::new();
     let mut arities = [0usize; 8];
     let mut steps: Vec<usize> = Vec::new();
+    let mut scope_depth: Vec<usize> = Vec::new();
     let mut eval_classes: BTreeMap<String, usize> = BTreeMap::new();
     let mut eval_bad: Vec<(usize, String, String)> = Vec::new();
     let max_steps: usize = opts.iter().find_map(|o| o.strip_prefix("max_steps=").and_then(|v| v.parse().ok())).unwrap_or(2_000_000);
     let mut arg_rng = Rng::new(seed ^ 0xA5A5);
     for k in 0..n {
         let p = gen_k(seed, k, opts);
+        // promises of the switches, checked by independent code
+        {
+            use crate::gen_fun_check as ck;
+            let mut v: Vec<String> = Vec::new();
+            if p.cfg.effect_sequenced { v.extend(ck::effect_sequenced_violations(&p.ast).into_iter().map(|x| format!("effect_sequenced: {x}"))); }
+            if !p.cfg.effects_everywhere { let n = ck::effects_in_argument_positions(&p.ast); if n > 0 { v.push(format!("{n} argument positions contain print/exit/goto/label although effects_everywhere is off")); } }
+            if !p.cfg.shadowing { v.extend(ck::binder_clashes(&p.ast).into_iter().map(|x| format!("binder reused although shadowing is off: {x}"))); }
+            scope_depth.push(ck::max_scope_depth(&p.ast));
+            if let Some(first) = v.first() { *eval_classes.entry("PROMISE BROKEN".into()).or_insert(0) += 1; eval_bad.push((k, first.clone(), p.text.clone())); }
+        }
         // the generator's own machine: termination, step counts, unsafe division
         {
             use crate::gen_fun_eval::{run, Outcome};
@@ -190,6 +201,7 @@ pub fn cmd_stats(seed: u64, n: usize, opts: &[String]) {
     dist("size (source lines)", &mut lines);
     dist("size (x86-64 assembly bytes)", &mut asm_sizes);
     dist("machine steps (worst of 6 argument tuples)", &mut steps);
+    dist("variables in scope at the deepest point", &mut scope_depth);
     println!("programs above 5000 steps: {}   above 100000: {}", steps.iter().filter(|s| **s > 5000).count(), steps.iter().filter(|s| **s > 100000).count());
     println!("machine outcomes: {eval_classes:?}");
     println!("main arity histogram 0..: {:?}", &arities[..6]);
